@@ -18,6 +18,10 @@ def run(cmd, **kw):
     return subprocess.run(cmd, capture_output=True, text=True, **kw)
 res = {}
 run(["git", "-C", wt, "checkout", "--", "."])
+# bring the scratch worktree to /repo's current HEAD so that 'fix:' commits made since it was created are present
+head = run(["git", "-C", "/repo", "rev-parse", "HEAD"]).stdout.strip()
+run(["git", "-C", wt, "checkout", "-q", "--detach", head])
+res["repo_head"] = head[:10]
 env = dict(os.environ, PYTHONPATH=wt + "/Lib")
 r = run(["/venv/bin/python", sd + "/demo.py", wt], env=env, timeout=600)
 res["demo_clean_exit"] = r.returncode
@@ -35,6 +39,7 @@ try:
         r = run(["/venv/bin/python", "-m", "pytest", "-q", "-p", "no:cacheprovider", "--timeout=900", "-n", "6"], cwd=wt, env=env, timeout=3600)
         res["tests_tail"] = r.stdout.strip().splitlines()[-1] if r.stdout.strip() else r.stderr[-300:]
         res["tests_pass"] = r.returncode == 0
+        res["tests_failed"] = [l for l in r.stdout.splitlines() if l.startswith(("FAILED", "ERROR"))][:10]
         res["tests_secs"] = round(time.time() - t0)
     res["checks"] = {}
     for c in checks:
